@@ -270,10 +270,18 @@ def _check_gen(case, ctx):
         ctx.sample({'rendered': texts[0][:700]}, 2)
 
 
+def known_shape(case, v):
+    """Key of the shape found on the unchanged tree (only reachable with case['strict'];
+    otherwise the oracle excludes it by construction and counts it)."""
+    if v.clause == 'writer-roundtrip' and case.get('k') == 'gen' and case['model']['id']['form'] == 'action':
+        return 'C10-F1-action-writer-roundtrip'
+    return None
+
+
 # ------------------------------------------------------------------ plan
 def plan(tier):
     if tier == 'quick':
-        n, nf = 3000, 250
+        n, nf = 2000, 200
     else:
         n, nf = 100000, 4000
     specs = []
